@@ -130,7 +130,7 @@ pub fn run(ctx: &mut Ctx) {
     ));
 
     // random: deeper, mixed separators, file-like last components, doubled separators
-    let total = ctx.size(1_000_000, 30_000_000);
+    let total = ctx.size(4_000_000, 40_000_000);
     for n in ctx.cases("random", total) {
         let mut rng = ctx.begin("random", n);
         let abs = rng.bool();
